@@ -89,9 +89,9 @@ func splitStmts(s *scanner.Scanner) (stmts []aStmt) {
 		}
 		stmt.words = append(stmt.words, aWord{pos, tok})
 		switch tok {
-		case token.LBRACE:
+		case token.LBRACE, token.LPAREN, token.LBRACK: // grouped declarations `var (...)` span several lines too
 			level++
-		case token.RBRACE:
+		case token.RBRACE, token.RPAREN, token.RBRACK:
 			level--
 		}
 		if tok == token.SEMICOLON && level == 0 {
